@@ -1,7 +1,7 @@
 (* Props/C02.v — allocation-free validators accept exactly what their reference
    parsers accept. *)
 From Verif Require Import Base.GoPrim Base.Strings Gen.Consts Gen.BytePreds Std.Netip Model.Ip Model.Addr
-  Proofs.AddrProofs Proofs.IpProofs Proofs.IpEquiv.
+  Proofs.AddrProofs Proofs.IpProofs Proofs.IpEquiv Model.IpL1 Proofs.IpL1Proofs.
 
 (* IsValidIPString(s) iff netip.ParseAddr(s) succeeds — for every byte string.  The proof
    relates the two algorithms step by step: the dotted-quad branch through the canonical
@@ -15,6 +15,11 @@ Proof. exact c02_ip_string. Qed.
 (* IsValidIPPortString(s) iff netip.ParseAddrPort(s) succeeds — for every byte string *)
 Theorem C02_ip_port_string : forall s, is_valid_ip_port_string s = true <-> parse_addr_port s <> None.
 Proof. exact c02_ip_port_string. Qed.
+
+(* the index-level model of ip.go (every s[i], s[a:b] bounds-checked) computes the same verdicts *)
+Theorem C02_index_level : forall s,
+  is_valid_ip_string_l1 s = Ret (is_valid_ip_string s) /\ is_valid_ip_port_string_l1 s = Ret (is_valid_ip_port_string s).
+Proof. intros s. split; [apply ip_string_l1|apply ip_port_string_l1]. Qed.
 
 (* the dotted-quad validators accept exactly the canonical spelling of four octets *)
 Theorem C02_ipv4_string : forall s, is_valid_ipv4_string s = true <-> parse_ipv4 s <> None.
@@ -50,6 +55,7 @@ Proof. vm_compute. repeat split; reflexivity. Qed.
 Print Assumptions C02_ip_string.
 Print Assumptions C02_ip_port_string.
 Print Assumptions C02_ipv4_string.
+Print Assumptions C02_index_level.
 Print Assumptions C02_hostname.
 Print Assumptions C02_label.
 Print Assumptions C02_port.
